@@ -3,7 +3,7 @@ ENGINES = [
     {"name": "E2", "path": "mc/props/c06.py", "kind_free_text": "explicit-state breadth-first search over call histories of a real Record (state = history replayed on a fresh object, canonical state hash, invariants in every state, differential oracles)",
      "serves_properties": ["C06", "C08"]},
     {"name": "E1", "path": "mc/engine/core.py", "kind_free_text": "bounded exhaustive input enumeration of the real functions against set-of-bases / truth-table reference models, sharded over processes",
-     "serves_properties": ["C01", "C02", "C03", "C04", "C05", "C07", "C08", "C09"]},
+     "serves_properties": ["C01", "C02", "C03", "C04", "C05", "C07", "C08", "C09", "C15"]},
 ]
 NOT_APPLICABLE = {}
 CHECKS = {
@@ -63,4 +63,11 @@ CHECKS = {
                      "TTA markers, NRPS/PKS domain and motif feature generation; the returned location's transcript-order base list must equal "
                      "the gene's transcript slice (inside the gene, three bases per residue, same strand).",
                 note="Coding lengths 12-21, <=3 exons, ring of 60; Biopython extract() semantics is the trusted definition of 'encodes'; split TTA codons may be left unmarked."),
+    "C15": dict(engine="E1", level="exploration", ref="DESIGN.md 5/C15",
+                technique="exhaustive enumeration of all DNA strings over {A,T,G} up to a length bound (plus one-letter deviations) x direction x offset/wrap x minimum length vs an independent scanner, with extraction equality; bounded enumeration of gene layouts for the gap search",
+                text="Every string over the three letters that form all start/stop codons up to length 9 (quick) / 12 (thorough), both directions, every "
+                     "position of the window on a small ring (so every wrap point), five minimum lengths: reported ORFs must equal the reference scanner's "
+                     "and extract to exactly the ORF; find_all_orfs on tiny records with <=2 genes, three area kinds and three overlaps must only return "
+                     "valid ORFs outside gene interiors with matching translations.",
+                note="Alphabet argument: other letters only act as 'not a start/stop'; minimum-length band between with/without stop codon accepted either way; gap search judged for soundness only."),
 }
